@@ -58,7 +58,14 @@ def run(ck):
 
     # ---------------- R1: client ----------------
     def is_done_call(ev):
-        return ev["k"] == "call" and ev.base_callee() == "std::function::operator()" and (ev.get("recv") or {}).get("v") == "onDone"
+        # the completion callback: RequestEntry::onDone itself or a local copy of it
+        if ev["k"] != "call" or ev.base_callee() != "std::function::operator()":
+            return False
+        rv = ev.get("recv") or {}
+        if strip_tmpl(rv.get("f") or "").endswith("RequestEntry::onDone"):
+            return True
+        copies = {d["var"] for d in ev.func.events("decl") if strip_tmpl((d.get("init") or {}).get("f") or "").endswith("RequestEntry::onDone")}
+        return rv.get("v") in copies
 
     def is_clean(ev):
         if is_reset(ev):
